@@ -106,6 +106,8 @@ func FromString[T fixed.Dx](str string) (Int[T], error) {
 		if value.Sign() < 0 {
 			neg = true
 			value.Neg(value)
+		} else if parts[0][0] == '-' {
+			neg = true
 		}
 		value.Mul(value, big.NewInt(t.Multiplier()))
 	}
